@@ -130,6 +130,33 @@ Theorem C18_ohv_def_and_recombinant_bound : forall (ploidy : Z) (nhap nt : nat) 
 Proof. exact ohv_bounds_recombinants. Qed.
 Print Assumptions C18_ohv_def_and_recombinant_bound.
 
+(** cross maps (_calc_xmap) designate valid parents: every tuple has nparent members, all existing taxa *)
+Theorem C18_xmap_valid : forall ntaxa nparent uniq,
+  Forall (fun xc => length xc = nparent /\ Forall (fun d => d < ntaxa) xc) (calc_xmap ntaxa nparent uniq).
+Proof. exact calc_xmap_valid. Qed.
+Print Assumptions C18_xmap_valid.
+
+(** The OHV problem as built by from_pgmat_gpmod (haplomat -> cross map -> ohvmat), PARTIAL under the guard "as many runs
+    as requested blocks": for every cross of the map and every trait the entry of ohvmat is defined (finite) and is at least
+    ploidy * (value of any haplotype assembled block by block from the phases of that cross's parents). *)
+Theorem C18_ohv_problem_partial : forall (T : Type) (O : ops T) (chrs : list (list T)) (e1 e2 : err) (nhap : nat)
+    (geno : list (list (list Z))) (clen : list nat) (u : list (list Q)) (nt : nat) (hm : hmat_t)
+    (ntaxa nparent : nat) (uniq : bool) (bounds : list (nat * nat)),
+  chrs <> [] -> Forall (fun c => c <> []) chrs ->
+  calc_haplomat O e1 e2 nhap geno (concat chrs) (starts_from 0 (map (@length T) chrs)) (stops_from 0 (map (@length T) chrs)) clen u nt = Ok hm ->
+  calc_bounds O nhap (concat chrs) (starts_from 0 (map (@length T) chrs)) (stops_from 0 (map (@length T) chrs)) = Some bounds ->
+  length bounds = nhap ->
+  geno <> [] -> Forall (fun phm => length phm = ntaxa /\ Forall (fun g => length g = length (concat chrs)) phm) geno ->
+  length u = length (concat chrs) -> 1 <= nparent ->
+  forall s xc t, nth_error (calc_xmap ntaxa nparent uniq) s = Some xc -> t < nt ->
+  exists V, nth_error (calc_ohvmat (Z.of_nat (length geno)) nhap nt hm (calc_xmap ntaxa nparent uniq)) s
+              = Some (ohv_row (Z.of_nat (length geno)) nhap nt (cands hm xc))
+    /\ nth t (ohv_row (Z.of_nat (length geno)) nhap nt (cands hm xc)) None = Some V
+    /\ forall src : nat -> list Z, (forall b, b < nhap -> In (src b) (copies geno xc)) ->
+         (inject_Z (Z.of_nat (length geno)) * dotZQ (recomb src 0 bounds) (col 0%Q t u) <= V)%Q.
+Proof. exact @ohv_problem_partial. Qed.
+Print Assumptions C18_ohv_problem_partial.
+
 (** the optimal population value latentfn is minus the same quantity with the selected individuals as the designated
     parents and ploidy = number of phases, so the theorem above covers it *)
 Theorem C18_opv_is_ohv_of_selection : forall (nb nt : nat) (hm : hmat_t) (x : list nat) (t : nat),
